@@ -195,8 +195,19 @@ func (c *Ctx) callFn(fn *ssa.Function, args []Value, env []Value) Value {
 		c.unsupported("call to function without body: " + key)
 	}
 	c.noteFn(fn.String())
-	if c.depth > 400 {
-		c.unsupported("call depth exceeded")
+	if c.depth > c.shared.opts.MaxDepth {
+		msg := "call depth " + fmt.Sprint(c.shared.opts.MaxDepth) + " exceeded (unbounded recursion?) @" + c.where()
+		var vec []uint64
+		if c.solver != nil {
+			if c.solver.Check(nil, false) == Sat {
+				vec = c.modelVector()
+			}
+			c.solver.EndCheck()
+		} else {
+			vec = c.concreteVec
+		}
+		c.reportViolation("recursion", "recursion:"+fn.String(), msg, vec, "")
+		panic(pathEnd{"recursion", "call depth exceeded in " + fn.String()})
 	}
 	fi := c.infoFor(fn)
 	fr := &frame{fn: fn, info: fi, regs: make([]Value, fi.n), env: env, caller: c.cur}
